@@ -36,6 +36,8 @@ def run_history(ctx, rng, case, est, Q, rate, hname, hf, keys, nsteps, p_pushpop
         if r < 0.8:
             key = rng.choice(keys)
             force = rng.random() < 0.15
+            if force and rng.random() < 0.3:
+                force = 1  # a truthy flag that is not the object True
             present = f.check(key)
             eff = force or not present
             if rng.random() < 0.85:
